@@ -65,6 +65,7 @@ def pCase : P Case := do
   if c != "C" then throw "not a case"
   let id ← tok
   let session ← pNat
+  let _mode ← pNat      -- LoadModel+ReadSolution / Solve with a fake solver / the same with an automatic stub: same observations
   let api ← pNat
   let text ← pNat
   let _comments ← pNat
@@ -150,13 +151,14 @@ def sufSize (m : MatrixModel) (kind : Nat) : Nat :=
   match kind % 4 with | 0 => m.n | 1 => m.m | _ => 1
 
 /-- `pdOld`: the `PreprocessData` state of the case's session before this model is loaded -/
-def runCase (c : Case) (pdOld : Pd) : List String × Pd := Id.run do
+def runCase (c : Case) (pdOld : Pd) (errOld : Bool) : List String × Pd × Bool := Id.run do
   let m := c.m
   let id := c.id
   let pd := exportPrepro pdOld m
   let mut out : Array String := #[]
   out := out.push (s!"{id} perm" ++ String.join (pd.vperm.map (fun v => s!" {v}")))
   out := out.push (s!"{id} inv" ++ String.join (pd.vpermInv.map (fun v => s!" {v}")))
+  out := out.push s!"{id} getters 1"
   out := out.push s!"{id} load 1 1"
   let h := header m c.text c.flags
   out := out.push (s!"{id} hdr fmt {if h.text then "t" else "b"} flags {h.flags} nvars {h.nvars} ncons {h.ncons} nobjs {h.nobjs}" ++
@@ -195,33 +197,42 @@ def runCase (c : Case) (pdOld : Pd) : List String × Pd := Id.run do
   let x := onPrimalPd pd m.n c.solx
   out := out.push (s!"{id} sol x" ++ String.join (x.map (fun v => " " ++ showRat v)))
   out := out.push (s!"{id} sol y" ++ String.join (c.soly.map (fun v => " " ++ showRat v)))
-  for s in c.ssuf do
-    out := out.push (s!"{id} sol suf {s.name} {s.kind} {sufSize m s.kind}" ++ showDenseNZ (onSuffixPd pd m.n m.m s.kind s.entries))
+  for s in readSolSuffixes pd m.n m.m (c.ssuf.map (fun s => (s.name, s.kind, s.entries))) do
+    out := out.push (s!"{id} sol suf {s.1} {s.2.1} {sufSize m s.2.1}" ++ showDenseNZ s.2.2)
   if x.length == m.n then
     match computeObjValue m (fun j => x.getD j 0) with
     | some v => out := out.push s!"{id} sol obj {showRat v}"
     | none => out := out.push s!"{id} sol obj crash"
+  let err := stickyErr errOld (solReadError m.n m.m (c.ssuf.map (fun s => (s.name, s.kind, s.entries))))
+  out := out.push s!"{id} sol err {if err then 1 else 0}"
   if m.api == 0 then out := out.push s!"{id} samefile 1"
   out := out.push s!"{id} end"
-  pure (out.toList, pd)
+  pure (out.toList, pd, err)
 
 /-- sessions: association list session id -> stored `PreprocessData` (session 0 is always fresh) -/
-partial def loop (h : IO.FS.Stream) (o : IO.FS.Stream) (st : List (Nat × Pd)) : IO Unit := do
+partial def loop (h : IO.FS.Stream) (o : IO.FS.Stream) (st : List (Nat × Pd)) (errs : List ((Nat × Nat) × Bool) := []) : IO Unit := do
   let line ← h.getLine
   if line.isEmpty then return
   let l := line.trimAscii.toString
-  if l.isEmpty || l.startsWith "#" then loop h o st
+  if l.isEmpty || l.startsWith "#" then loop h o st errs
   else
     let toks := (l.splitOn " ").filter (fun t => !t.isEmpty)
+    if toks == ["P"] then
+      for s in probeLines do o.putStrLn s
+      loop h o st errs
+    else
     match (pCase.run toks) with
     | .ok (c, _) =>
       let pdOld : Pd := if c.session == 0 then ⟨[], []⟩ else ((st.lookup c.session).getD ⟨[], []⟩)
-      let (lines, pd) := runCase c pdOld
+      -- the error flag lives in the solver object of the session: one C++ NLSolver and one C solver per session
+      let errOld : Bool := if c.session == 0 then false else ((errs.lookup (c.session, c.m.api)).getD false)
+      let (lines, pd, err) := runCase c pdOld errOld
       for s in lines do o.putStrLn s
-      loop h o (if c.session == 0 then st else (c.session, pd) :: st)
+      if c.session == 0 then loop h o st errs
+      else loop h o ((c.session, pd) :: st) (((c.session, c.m.api), err) :: errs)
     | .error e =>
       o.putStrLn s!"bad-op {e}"
-      loop h o st
+      loop h o st errs
 
 def main : IO Unit := do
   let i ← IO.getStdin
